@@ -479,7 +479,8 @@ func childC18(args []string) {
 			for k := 0; k < 3 && stillParked; k++ {
 				stillParked = false
 				for _, g := range findG(parseDump(vlib.AllStacks()), waiter) {
-					if parkedState(g.State) {
+					// parked in a send means it has made up its mind and waits for the receiver
+					if parkedState(g.State) && g.State != "chan send" {
 						stillParked = true
 					}
 				}
